@@ -177,6 +177,9 @@ Push(t) == pool' = Append(pool, t) /\ nops' = nops + 1
 AddLeaf ==
   /\ "Leaf" \in Acts /\ nops = 0 /\ Len(pool) < MaxLeaves
   /\ \E k \in 1..Len(Leaves) :
+       \* with "OrderedLeaves" the leaves enter in catalogue order (one pool per leaf SET)
+       /\ ("OrderedLeaves" \in Acts /\ pool # <<>>) =>
+             \A k2 \in 1..Len(Leaves) : Ann(Leaves[k2]) = pool[Len(pool)] => k2 < k
        /\ \A j \in 1..Len(pool) : pool[j] # Ann(Leaves[k])
        /\ pool' = Append(pool, Ann(Leaves[k])) /\ nops' = nops
 
